@@ -426,7 +426,8 @@ class TreeStream(Stream):
             "nesting per source; sources header, .license, REUSE.toml closest/aggregate/override; LicenseRef texts with blank "
             "lines, CRLF, fake tags) x every option set of `reuse spdx` (9 sets, one also through --output inside or outside the "
             "project, 12% with the process pool): real output compared with the model's document built from generator ground "
-            "truth (+ the tool's own LicenseConcluded, validated separately); oracle = property clauses against lint --json "
+            "truth (+ the tool's own LicenseConcluded, each one decided by the verified checker BoolExpr.equiv against the AND of the "
+            "ground-truth expressions); the Lean tag-value reader reads every real document and must agree with the harness reader; oracle = property clauses against lint --json "
             "and hashlib; non-trivial = tree with >= 2 covered files and at least one file with information")
 
     def __init__(self):
@@ -545,13 +546,46 @@ class TreeStream(Stream):
         for k in sorted(res["runs"]):
             if res["runs"][k].get("doc") is not None:
                 lines.append("tvdoc\t" + enc_list(res["runs"][k]["doc"].split("\n")))
+        # every LicenseConcluded the real tool emitted goes to the verified checker (translation validation)
+        for k, name, conc, exprs in self.concluded_pairs(case, res):
+            try:
+                a = enc_list(rpn(parse_expr(conc)))
+            except ValueError:
+                a = enc_list(["unreadable"])
+            lines.append("boolequiv\t%s\t%s" % (a, enc_list(rpn(conj([parse_expr(e) for e in exprs])))))
         return lines
+
+    def concluded_pairs(self, case, res):
+        """(run, file name, LicenseConcluded text of the real document, the file's expressions by ground truth)"""
+        out = []
+        ids = {}
+        for f in covered(case):
+            name = "./" + f["path"]
+            chk = hashlib.sha1(content_of(f)).hexdigest()
+            exprs = [e for c, es in truth(f) for e in es]
+            if exprs:
+                ids["SPDXRef-" + hashlib.md5((name + chk).encode("utf-8")).hexdigest()] = (name, exprs)
+        for k in sorted(res["runs"]):
+            doc = res["runs"][k].get("doc")
+            if doc is None or not k.startswith("add"):
+                continue
+            dl = doc.split("\n")
+            for i in range(2, len(dl)):
+                if dl[i].startswith("LicenseConcluded: ") and dl[i - 1].startswith("FileChecksum: SHA1: ") \
+                        and dl[i - 2].startswith("SPDXID: ") and dl[i - 2][len("SPDXID: "):] in ids:
+                    name, exprs = ids[dl[i - 2][len("SPDXID: "):]]
+                    out.append((k, name, dl[i][len("LicenseConcluded: "):], exprs))
+        return out
 
     def model_out(self, case, outs):
         res = json.loads(json.dumps(self.cache[self.key(case)]))
         with_doc = [k for k in sorted(res["runs"]) if res["runs"][k].get("doc") is not None]
         for k, o in zip(with_doc, outs[len(res["runs"]):]):
             res["runs"][k]["tv"] = o
+        rejected = {}
+        for (k, name, conc, exprs), o in zip(self.concluded_pairs(case, res), outs[len(res["runs"]) + len(with_doc):]):
+            if o != "1":
+                rejected.setdefault(k, []).append("%s: %r vs AND of %r (%s)" % (name, conc, exprs, o))
         for k, o in zip(sorted(res["runs"]), outs):
             run = res["runs"][k]
             if o == "usage-error":
@@ -561,6 +595,8 @@ class TreeStream(Stream):
                 text = dec(t)
                 run.update({"exit": 0, "exc": None, "doc": text})
                 run.pop("usage", None)
+                if k in rejected:
+                    run["doc"] = "VERIFIED-CHECKER-REJECTS-LicenseConcluded: " + "; ".join(rejected[k])
                 if ok == "1":
                     # the theorem's side condition holds: the real document must be readable
                     try:
